@@ -3,6 +3,8 @@ import RustCcModel.Proofs.WeakInv6
 namespace RustCc
 open World
 
+variable {ex : Bool}
+
 theorem not_occupiedW {w : World} {k : Nat} (hk : ¬ ((w.getW k).isSome = true ∨ k ≥ w.W.length)) :
     w.getW k = none ∧ k < w.W.length := by
   constructor
@@ -55,8 +57,8 @@ theorem resolveW_pos {w : World} {self wc : Option Id} (hself : ∀ s, self = so
 
 variable (c : Cfg) (w : World) (self wc : Option Id)
 
-theorem execOp_weakH_down (r : CRef) (k : Nat) (hc : Counts w) (hi : Inv w) (h : WeakH w [])
-    (hself : ∀ s, self = some s → s < w.next) : WeakH (execOp c w self wc (.down r k)) [] := by
+theorem execOp_weakH_down (r : CRef) (k : Nat) (hc : Counts w) (hi : Inv w) (h : WeakH ex w [])
+    (hself : ∀ s, self = some s → s < w.next) : WeakH ex (execOp c w self wc (.down r k)) [] := by
   simp only [execOp]
   split
   · wneutral h
@@ -79,9 +81,9 @@ theorem execOp_weakH_down (r : CRef) (k : Nat) (hc : Counts w) (hi : Inv w) (h :
           exact h3.ret _
     · wneutral h
 
-theorem execOp_weakH_wclone (ws : WSel) (k : Nat) (h : WeakH w [])
+theorem execOp_weakH_wclone (ws : WSel) (k : Nat) (h : WeakH ex w [])
     (hself : ∀ s, self = some s → s < w.next) (hwc : ∀ x, wc = some x → x ∈ cycs w.stack) :
-    WeakH (execOp c w self wc (.wclone ws k)) [] := by
+    WeakH ex (execOp c w self wc (.wclone ws k)) [] := by
   simp only [execOp]
   split
   · wneutral h
@@ -106,7 +108,7 @@ theorem execOp_weakH_wclone (ws : WSel) (k : Nat) (h : WeakH w [])
             exact h3.ret _
     · wneutral h
 
-theorem execOp_weakH_wdrop (k : Nat) (h : WeakH w []) : WeakH (execOp c w self wc (.wdrop k)) [] := by
+theorem execOp_weakH_wdrop (k : Nat) (h : WeakH ex w []) : WeakH ex (execOp c w self wc (.wdrop k)) [] := by
   simp only [execOp]
   split
   · wneutral h
@@ -117,7 +119,7 @@ theorem execOp_weakH_wdrop (k : Nat) (h : WeakH w []) : WeakH (execOp c w self w
       exact (WeakH.weakDropR r h1).ret _
     · wneutral h
 
-theorem execOp_weakH_wnew (k : Nat) (h : WeakH w []) : WeakH (execOp c w self wc (.wnew k)) [] := by
+theorem execOp_weakH_wnew (k : Nat) (h : WeakH ex w []) : WeakH ex (execOp c w self wc (.wnew k)) [] := by
   simp only [execOp]
   split
   · wneutral h
@@ -128,7 +130,7 @@ theorem execOp_weakH_wnew (k : Nat) (h : WeakH w []) : WeakH (execOp c w self wc
     rw [hnone] at h3
     exact h3.ret _
 
-theorem execOp_weakH_cdrop (k : Nat) (h : WeakH w []) : WeakH (execOp c w self wc (.cdrop k)) [] := by
+theorem execOp_weakH_cdrop (k : Nat) (h : WeakH ex w []) : WeakH ex (execOp c w self wc (.cdrop k)) [] := by
   simp only [execOp]
   split
   · wneutral h
